@@ -164,39 +164,30 @@ pub fn abs_decode<T: Borrow<[u8]>, R: Reader<T>>(attribute_type: u16, reader: &m
 }
 
 // ---------------------------------------------------------------------------
-// try_read_greedy as an arbitrary list of GREEDY_LEN results
-
-pub const GREEDY_MAX: usize = 4;
-pub static mut GREEDY_CALLS: usize = 0;
-pub static mut GREEDY_REGION: usize = 0;
-/// Length of the list `abs_greedy` returns: a *constant* chosen by the harness
-/// (a list whose length is itself nondeterministic does not keep a constant
-/// length in symbolic execution and the control layer's loops over it explode).
-pub static mut GREEDY_LEN: usize = 0;
-/// Kind chosen for each element (nondeterministic per element).
-pub static mut GREEDY_KINDS: [AbsKind; GREEDY_MAX] = [AbsKind::Err; GREEDY_MAX];
+// try_read_greedy abstracted to "the region holds no AVP"
+//
+// Measured (Kani 0.68): a stub for this associated function that builds a
+// non-empty Vec, or that writes a static, yields spurious memory-safety
+// failures in the goto program (the same bodies are fine as stubs for
+// `decode_avp`), and the control layer's own handling of two or more results
+// does not finish anyway (DESIGN.md §2 P11/P23).  So the only abstraction used
+// is the empty list; AVP lists are handled with the real record walker over
+// concrete skeletons (h_ctrl.rs) and fully symbolically one layer down
+// (h_greedy.rs).
 
 #[cfg(kani)]
-pub fn abs_greedy<T: Borrow<[u8]>, R: Reader<T>>(reader: &mut R) -> Vec<Result<AVP, DecodeError>> {
-    unsafe {
-        GREEDY_CALLS += 1;
-        GREEDY_REGION = reader.len();
-        let k = GREEDY_LEN;
-        let mut v = Vec::with_capacity(k);
-        let mut i = 0;
-        while i < k {
-            let c: u8 = kani::any();
-            let kind = if c == 0 {
-                AbsKind::OkMessageType
-            } else if c == 1 {
-                AbsKind::OkOther
-            } else {
-                AbsKind::Err
-            };
-            GREEDY_KINDS[i] = kind;
-            v.push(abs_value(i, kind));
-            i += 1;
-        }
-        v
-    }
+pub fn abs_greedy_k0<T: Borrow<[u8]>, R: Reader<T>>(reader: &mut R) -> Vec<Result<AVP, DecodeError>> {
+    let _ = reader.len();
+    Vec::new()
+}
+
+/// Kani computes which items a harness needs before it swaps stub bodies in;
+/// harnesses that use the stubs call this first so that everything the stubs
+/// use is also reachable from the harness itself.
+pub fn touch() {
+    let mut tv: Vec<Result<AVP, DecodeError>> = Vec::new();
+    tv.push(abs_value(0, AbsKind::OkOther));
+    tv.push(abs_value(1, AbsKind::Err));
+    tv.push(abs_value(2, AbsKind::OkMessageType));
+    std::mem::forget(tv);
 }
